@@ -1,4 +1,4 @@
-import ComposeVerif.Lemmas.NameDotenv
+import ComposeVerif.Lemmas.NameExamples
 /-!
 # C17 — boundaries of the property, proved on concrete witnesses
 
@@ -10,43 +10,22 @@ Neither is a defect with respect to the property text.
 namespace CV.Name.Neg
 open CV CV.Name
 
-def fa : List (Str × Str) := [("V".toList, "a".toList), ("X".toList, "1".toList)]
-def fb : List (Str × Str) := [("X".toList, "2".toList), ("S".toList, "$X".toList)]
-
-def w : World where
-  dirs := [{ name := "p".toList, files := [("c".toList, [none])] }]
-  given := [{ dir := 0, file := some "c".toList }]
-  os := strs ["V=o"]
-  envFiles := [("a".toList, .file (renderSimple fa)), ("b".toList, .file (renderSimple fb))]
-  probe := []
-
-theorem la : lookupFile w (.named "a".toList) = some (.file (renderSimple fa)) := by decide
-theorem lb : lookupFile w (.named "b".toList) = some (.file (renderSimple fb)) := by decide
-
-/-- unfold a concrete run down to the grammar evaluator -/
-macro "eval_run" : tactic => `(tactic|
-  (simp only [run, runOpts, applyOpt, withEnvFiles, strs, List.map, getEnvFromFile, la, lb,
-     parseFile_renderSimple _ fa (by decide), parseFile_renderSimple _ fb (by decide)]))
-
-def varOf (k : String) (r : Except Err Loaded) : Option String :=
-  r.toOption.bind (fun l => (l.env.get k.toList).map String.ofList)
-
 /-- "OS variables over .env files" does NOT hold for every order of the option calls: `WithDotEnv` called
     before `WithOsEnv` lets the file value win (the general law is `env_any_option_order`) -/
 theorem os_over_dotenv_in_any_order_is_false :
-    ¬ (∀ opts : List Opt, Opt.withOsEnv ∈ opts → varOf "V" (run w opts) = some "o" ∨ varOf "V" (run w opts) = none) := by
+    ¬ (∀ opts : List Opt, Opt.withOsEnv ∈ opts → varOf "V" (run negW opts) = some "o" ∨ varOf "V" (run negW opts) = none) := by
   intro h
   have := h [.withEnvFiles (strs ["a"]), .withDotEnv, .withOsEnv] (by decide)
   revert this
-  eval_run
+  neg_eval_run
   decide
 
 /-- a reference in a later env file does NOT see the later file's own override first: `$X` on a line of `b`
     placed after `X=2` resolves to the EARLIER file's `X=1` (lookup chain: project environment, earlier files,
     earlier lines — `dotenv_refs_above`), although the final value of `X` is 2 -/
 theorem ref_sees_own_file_first_is_false :
-    ¬ (varOf "S" (run w [.withEnvFiles (strs ["a", "b"]), .withDotEnv]) = varOf "X" (run w [.withEnvFiles (strs ["a", "b"]), .withDotEnv])) := by
-  eval_run
+    ¬ (varOf "S" (run negW [.withEnvFiles (strs ["a", "b"]), .withDotEnv]) = varOf "X" (run negW [.withEnvFiles (strs ["a", "b"]), .withDotEnv])) := by
+  neg_eval_run
   decide
 
 end CV.Name.Neg
